@@ -284,7 +284,7 @@ def cache_oracle(case, res):
     if res is None or not res.startswith('ok '):
         return ['not-ok:' + (res or 'None').split(' ')[0]]
     f = fields_cache(res)
-    terms = case[3:]
+    terms = [t for t in case[3:] if not (t.startswith('(xcl') or t.startswith('(xbl') or t.startswith('(xl'))]      # abandoned constructions (variant `parse`) add no value
     want = []
     for t in terms:
         p = t.strip('()').split(' ')
